@@ -161,7 +161,11 @@ func checkC13(c *Ctx) {
 		p1, r1 = b.val("noparen", "VAR_S")
 		p2, r2 = b.val("free", "11")
 		p3, r3 := b.val("free", "12")
-		if r2 == r3 {
+		dupCase := false
+		if i%8 == 5 && p2 != r2 {
+			// the same value spelled twice, once through a constant: both programs are ill-formed
+			p3, r3, dupCase = r2, r2, true
+		} else if r2 == r3 {
 			p3, r3 = "13", "13"
 		}
 		both("    switch (var("+p1+")) {\n        case "+p2+": c1\n        case "+p3+":\n        default: c3\n    }\n",
@@ -198,7 +202,7 @@ func checkC13(c *Ctx) {
 		outP[id], outR[id] = resP.Out+errText(resP.Err), resR.Out+errText(resR.Err)
 		nuses += len(b.uses)
 		recs = append(recs, map[string]interface{}{"id": id, "defs": b.defs, "uses": b.uses,
-			"out1": outLines(resP.Out), "out2": outLines(resR.Out), "err1": resP.Err != nil, "err2": resR.Err != nil})
+			"out1": outLines(resP.Out), "out2": outLines(resR.Out), "err1": resP.Err != nil, "err2": resR.Err != nil, "dupcase": dupCase})
 		if i < 2 {
 			c.Sample(map[string]interface{}{"with_constants": P.String(), "written_out": R.String()})
 		}
